@@ -644,6 +644,10 @@ class Driver:
             c, expr = self.p.class_attr(self.cls, a)
             if expr is not None:
                 return Opq("classattr:" + a)
+            from .effects import init_attrs
+            if a in init_attrs(self.p, self.cls):
+                # set by the constructor and not tracked: the solver's own (persistent) object of that name
+                return Opq("self." + a)
             raise AnalysisError("%s:%d self.%s read before assignment on this path" % (func.qualname, node.lineno, a))
         if isinstance(o, FieldObj):
             if a == "time":
@@ -999,6 +1003,9 @@ class Driver:
         if "." in n and n.split(".")[0] in self.INPUT_PARAMS and n.split(".")[-1] in self.MUTATORS and n.count(".") == 1:
             # a mutating method of an object the caller passed in as a pure input
             s.events.append(("param-mutated", n.split(".")[0], n.split(".")[1], ln))
+        if n.startswith("self.") and n.count(".") == 2 and n.split(".")[-1] in self.MUTATORS:
+            # a container the solver object keeps between calls is changed in place
+            s.events.append(("self-mutated", n.split(".")[1], n.split(".")[2], ln, list(args) + list(kw.values())))
         if n == "builtin:len":
             a = args[0]
             if isinstance(a, SeqSym):
